@@ -385,7 +385,7 @@ def gen_cases(rng, tier, scale):
                                   [(1, 1, 0, 8), (9, 4, 1, 8), (17, 1, 1, 4), (2, 4, 0, 4), (33, 4, 1, 8), (40, 1, 0, 8)]):
         cases.append(("enc", POINTS[0], enc_case(0, lp=lp, recon=rec, preset=preset, frames=fr)))
     # mid-stream: k sends, j in {0, all available}
-    n_mid = int((26 if quick else 1300) * scale)
+    n_mid = int((36 if quick else 1300) * scale)
     combos = [(k, j, lp, rec, pr) for k in range(0, 41) for j in (0, 1) for lp in (1, 4) for rec in (0, 1) for pr in (8, 4)]
     rng.shuffle(combos)
     if quick:
